@@ -50,7 +50,7 @@
 #ifndef VERIF_LOOP_decode_be
 #define VERIF_LOOP_decode_be \
   __CPROVER_assigns(L3_GHOST_FRAME, indent, empty, warned, file_pos, len, __CPROVER_object_whole(buf)) \
-  __CPROVER_loop_invariant(g_diag == __CPROVER_loop_entry(g_diag) + (warned ? 1u : 0u)) \
+  __CPROVER_loop_invariant(g_diag == __CPROVER_loop_entry(g_diag) + (warned ? 1ul : 0ul)) \
   VERIF_LOOP_DECODER_INVARIANT
 #endif
 #ifndef VERIF_LOOP_bm_ascii
@@ -80,10 +80,25 @@
 #ifndef VERIF_LOOP_print_dialects
 #define VERIF_LOOP_print_dialects
 #endif
+/* bbcbasic_to_text.c: option loop and file loop of wrapped_main (no decreases clause on the option
+   loop: its termination is getopt's contract, which is assumed) */
 #ifndef VERIF_LOOP_main_options
-#define VERIF_LOOP_main_options
+#define VERIF_LOOP_main_options \
+  __CPROVER_assigns(opt, listo, dialect, longindex, G, verif_optind, verif_optarg, __CPROVER_object_whole(verif_optarg_obj)) \
+  __CPROVER_loop_invariant(1 <= verif_optind && verif_optind <= argc) \
+  __CPROVER_loop_invariant(0 <= listo && listo <= 7) \
+  __CPROVER_loop_invariant(dialect < NUM_DIALECTS) \
+  __CPROVER_loop_invariant(g_wfail == __CPROVER_loop_entry(g_wfail) && g_diag == __CPROVER_loop_entry(g_diag))
 #endif
 #ifndef VERIF_LOOP_main_files
-#define VERIF_LOOP_main_files
+#define VERIF_LOOP_main_files \
+  __CPROVER_assigns(verif_optind, exitval, G, GL, GF) \
+  __CPROVER_loop_invariant(1 <= verif_optind && verif_optind <= argc) \
+  __CPROVER_loop_invariant(exitval == 0 || exitval == 1) \
+  __CPROVER_loop_invariant(exitval == 0 ==> (g_wfail == __CPROVER_loop_entry(g_wfail))) \
+  __CPROVER_loop_invariant(exitval == 1 ==> g_diag > __CPROVER_loop_entry(g_diag)) \
+  __CPROVER_loop_invariant(g_diag >= __CPROVER_loop_entry(g_diag) && g_diag <= __CPROVER_loop_entry(g_diag) + 32ul * (unsigned long)verif_optind) \
+  __CPROVER_loop_invariant(g_lines_listed < (1ul << 30) + (unsigned long)verif_optind * VERIF_FILE_MAX) \
+  __CPROVER_decreases(argc - verif_optind)
 #endif
 #endif
